@@ -35,6 +35,7 @@ EXPLANATION += (' R-C10-6: in the damage modules the per-point assessment and co
 EXPLANATION += (' R-C10-7: incremental sums over classes (outer loop over j, inner loop from a carried start to U(j)) carry exactly the end of the processed range (affine equality), so every class is added once whatever class the loop starts at, and a loop start derived from a minimum over the points is clamped to a valid class index.')
 EXPLANATION += (' R-C10-8: the per-node maximum load (paired by position with the nodes of a load step by the binned laws) is computed with a groupby that keeps the order of appearance (sort=False); order-class analysis.')
 EXPLANATION += (' R-C10-9 (shared with R-C07-8 / R-C05-12): the per-point look-up tables of the binned law are never replaced or re-ordered after their construction; their rows are paired with the points of a load step by position.')
+EXPLANATION += (' R-C10-10: the rule R-C04-1 evaluated for this property (sample insensitivity rests on the junction of the two HCM passes: flush decision on the look-ahead sequence, trailing plateau taken at its first sample, second pass flushes); its open known finding is listed for C10 too.')
 ASSUMPTIONS = [
     "pandas groupby(level).reduction() reduces within each group only; element-wise numpy/pandas operations keep rows apart",
 ]
@@ -282,6 +283,16 @@ def run(ctx):
     ctx.attempt(_r7)
     ctx.attempt(_r8)
     ctx.attempt(_r9)
+    ctx.attempt(_r10)
+
+
+def _r10(ctx):
+    """R-C10-10 (the rule R-C04-1, evaluated for this property): 'the lifetime does not change when non-reversal samples or
+    repeated values are added' rests on the junction of the two HCM passes - which samples pass 1 processes (flush decision on
+    the look-ahead sequence, a trailing plateau taken at its first sample) and that pass 2 flushes.  The open known finding of
+    R-C04-1 (look-ahead over the zero-prefixed samples) is a violation of this clause too and is listed for C10 as well."""
+    from .c04 import _r1
+    _r1(ctx, "R-C10-10")
 
 
 def _r9(ctx):
